@@ -344,6 +344,8 @@ var (
 	paNames    = []string{"ext", "e", "level", "freq"}
 	pValues    = []string{"1", "utf-8", "0.0.4", "x", "q"}
 	offParams  = []string{"charset=utf-8", "c=1", "version=2"}
+	// contents of quoted-string parameter values (written between double quotes as they are)
+	quotedValues = []string{"x\\\"y", "a\\\\b", "x y", "a=b", "\\x", "", "urn:x"}
 )
 
 func pick(r *rand.Rand, s []string) string { return s[r.Intn(len(s))] }
@@ -355,7 +357,13 @@ func randParams(r *rand.Rand, names []string, max int) []Param {
 	}
 	var out []Param
 	for i := 0; i < n; i++ {
-		out = append(out, Param{K: pick(r, names), V: pick(r, pValues), Quoted: r.Intn(5) == 0})
+		p := Param{K: pick(r, names), V: pick(r, pValues), Quoted: r.Intn(5) == 0}
+		if p.Quoted && r.Intn(2) == 0 {
+			// a well-formed quoted-string with quoted-pairs / blanks / '=' but without ',' ';' (their meaning inside
+			// quotes is not fixed for this parser): the range and its weight are unambiguous
+			p.V = pick(r, quotedValues)
+		}
+		out = append(out, p)
 	}
 	return out
 }
@@ -569,10 +577,63 @@ func mutateBytes(r *rand.Rand, s string) string {
 	return string(b)
 }
 
+// quotedForms: header elements with quoted-string parameter values - well-formed, with quoted-pairs, with separators inside the
+// quotes, unterminated, ending in a backslash (inside and outside a quoted-string).  Only totality and membership are demanded.
+var quotedForms = []string{
+	`text/html;a="x"`, `text/html;a="x\"y"`, `text/html;a="x,y";q=0.5`, `text/html;a="x;q=0"`, `text/html;a="x;q=0";q=0.5`,
+	`text/html;a="x`, `text/html;a="x\`, `application/json;profile="urn:x\`, `a/x;q=0.5;e="\`, `a/x;q=0.5;e="x\\`, `a/x;p="\\"`,
+	`a/x;p="\\\`, `a/x;p="`, `a/x;p=\`, `a/x;p=x\`, `a/x\`, `a/x;"`, `a/x;"\`, `a/x;q="0.5"`, `a/x;q="0.5\`, `a/x;q=0.5\`,
+	`gzip;p="x\`, `*;p="\`, `*/*;p="a,b\`, `a/x;p="a" , a/y;p="b\`, `a/x;p="\"\"\`, `a/x;p="\,";q=0`, `\`, `"`, `"\`, `;p="\`,
+}
+
+func opaqueCase(hdrs, offers []string, dflt string) M {
+	return M{"kind": "opaque", "hdrs": trace.BB(hdrs), "offers": trace.BB(offers), "dflt": trace.B(dflt)}
+}
+
+// genQuoted: every quoted form alone and at every position of a multi-line header (before / after a plain range, after a blank
+// line, followed by a further element on the same line).
+func genQuoted(c *drv.Ctx) {
+	offers := []string{"a/x", "text/html", "application/json", "gzip", "a/y"}
+	n := 0
+	for _, q := range quotedForms {
+		for _, hdrs := range [][]string{{q}, {"a/y", q}, {q, "a/y;q=0.5"}, {"", q}, {q + ", a/y"}, {"a/y;q=0.5, " + q}, {"a/y", q, "*/*;q=0.1"}} {
+			c.Case(opaqueCase(hdrs, offers, []string{"", "d/d"}[n%2]))
+			n++
+		}
+	}
+	c.Extra["quoted_form_cases"] = n
+}
+
+// randQuotedElement: a range followed by parameters whose values are random quoted-strings (terminated or not).
+func randQuotedElement(r *rand.Rand) string {
+	const inside = "ab,;=q \t\\\\\"\"01.x/*"
+	s := []string{"a/x", "text/html", "*/*", "gzip", "*", "a/*"}[r.Intn(6)]
+	for k := 1 + r.Intn(3); k > 0; k-- {
+		s += []string{";", "; ", " ;"}[r.Intn(3)] + []string{"p", "q", "level", "profile"}[r.Intn(4)] + "=\""
+		for m := r.Intn(6); m > 0; m-- {
+			s += string(inside[r.Intn(len(inside))])
+		}
+		switch r.Intn(5) {
+		case 0: // unterminated
+		case 1:
+			s += "\\" // ends in a backslash
+		default:
+			s += "\""
+		}
+	}
+	return s
+}
+
 func randOpaque(r *rand.Rand) M {
 	var hdrs []string
 	for n := 1 + r.Intn(3); n > 0; n-- {
-		switch r.Intn(3) {
+		switch r.Intn(4) {
+		case 3:
+			s := randQuotedElement(r)
+			for k := r.Intn(3); k > 0; k-- {
+				s += []string{",", ", ", " ,"}[r.Intn(3)] + randQuotedElement(r)
+			}
+			hdrs = append(hdrs, s)
 		case 0:
 			hdrs = append(hdrs, randBytes(r, r.Intn(40)))
 		case 1:
@@ -606,6 +667,7 @@ func generate(c *drv.Ctx) {
 	genExhaustiveCT(c, thorough)
 	genExhaustiveEnc(c, thorough)
 	genSyntax(c, thorough)
+	genQuoted(c)
 	nCT, nEnc, nOpaque := 6000, 1500, 6000
 	if thorough {
 		nCT, nEnc, nOpaque = 60000, 10000, 60000
